@@ -196,9 +196,18 @@ def run_job(job, keep_graph=False):
                 out["calls"].append(kind)
                 if kind == "reset":
                     eps_idx += 1
-                    cur = dict(obs=[], overridden=[], driver="step", eps=eps_idx)
+                    cur = dict(obs=[], overridden=[], driver="step", eps=0 if job.get("same_eps") else eps_idx)
                     out["episodes"].append(cur)
-                    gs, ss = g.reset(gs0.replace(eps=onp.int32(eps_idx)))
+                    gs, ss = g.reset(gs0.replace(eps=onp.int32(0 if job.get("same_eps") else eps_idx)))
+                    running = True
+                    cur["obs"].append(_obs(ss))
+                elif kind == "reset_carry":
+                    # a new episode started from the *last* graph state (per-node seq / ts / rng / state carried over), with
+                    # fresh input buffers: the runtime must still number the steps of the new episode from 0
+                    eps_idx += 1
+                    cur = dict(obs=[], overridden=[], driver="step", eps=eps_idx, carried=True)
+                    out["episodes"].append(cur)
+                    gs, ss = g.reset(gs.replace(inputs=gs0.inputs, eps=onp.int32(eps_idx)))
                     running = True
                     cur["obs"].append(_obs(ss))
                 elif kind == "step":
@@ -212,9 +221,9 @@ def run_job(job, keep_graph=False):
                 elif kind == "run":
                     if not running:
                         eps_idx += 1
-                        cur = dict(obs=[], overridden=[], driver="run", eps=eps_idx)
+                        cur = dict(obs=[], overridden=[], driver="run", eps=0 if job.get("same_eps") else eps_idx)
                         out["episodes"].append(cur)
-                        gs = gs0.replace(eps=onp.int32(eps_idx))
+                        gs = gs0.replace(eps=onp.int32(0 if job.get("same_eps") else eps_idx))
                         running = True
                     gs = g.run(gs)
                     cur["runs"] = cur.get("runs", 0) + 1
